@@ -19,6 +19,9 @@ func AllRules() []*Rule {
 	rs = append(rs, freshRules()...)
 	rs = append(rs, autoidxRule())
 	rs = append(rs, identRule())
+	rs = append(rs, fmtPageRule())
+	rs = append(rs, masterRule())
+	rs = append(rs, round2Rules()...)
 	return rs
 }
 
